@@ -139,7 +139,7 @@ fn sibling(name: &str) -> String {
 }
 
 fn pool_for(binary: &str, workers: usize) -> PoolConfig {
-    PoolConfig { exe: sibling(binary), args: vec!["worker".into()], envs: vec![], workers, watchdog: Duration::from_secs(120) }
+    PoolConfig { exe: sibling(binary), args: vec!["worker".into()], envs: vec![], workers, watchdog: Duration::from_secs(120), max_lost: 24 }
 }
 
 fn violations_of(reply: &Reply) -> Vec<(String, String, String)> {
@@ -155,6 +155,7 @@ fn violations_of(reply: &Reply) -> Vec<(String, String, String)> {
         }
         Reply::Died(info) => vec![("no_abort".into(), "worker process died".into(), info.clone())],
         Reply::Hung => vec![("no_hang".into(), "no reply within watchdog (deadlock or livelock)".into(), String::new())],
+        Reply::Skipped => vec![],
     }
 }
 
@@ -360,6 +361,7 @@ fn write_digests(label: &str, replies: &[Reply]) {
             Reply::Ok(v) => format!("{:016x}", simkit::fnv(v.to_string().as_bytes())),
             Reply::Died(_) => "died".to_string(),
             Reply::Hung => "hung".to_string(),
+            Reply::Skipped => "skipped".to_string(),
         };
         out.push_str(&format!("{i} {d}\n"));
     }
